@@ -714,15 +714,14 @@ async def wait_for(duration: int | Unsigned | Duration, *, allow_zero: bool = Fa
     else:
         cnt = duration
 
-    if allow_zero:
-        if duration == 0:
-            return
-    else:
+    if not allow_zero:
         assert (
             cnt > 0
         ), "waiting for 0 ticks only possible when allow_zero is set to True"
 
-    if _is_one(cnt):
+    if allow_zero and cnt == 0:
+        pass
+    elif _is_one(cnt):
         await true
     else:
         counter = Signal[Unsigned.upto(max_int(cnt - 1))](cnt - 1)
@@ -765,15 +764,14 @@ class Waiter:
             cnt <= self._max_duration_cnt
         ), "duration exceeds max_duration set in constructor"
 
-        if allow_zero:
-            if cnt == 0:
-                return
-        else:
+        if not allow_zero:
             assert (
                 cnt > 0
             ), "waiting for 0 ticks only possible when allow_zero is set to True"
 
-        if _is_one(cnt):
+        if allow_zero and cnt == 0:
+            pass
+        elif _is_one(cnt):
             await true
         else:
             self._duration_cnt <<= cnt - 1
